@@ -60,6 +60,12 @@ def polysOf : Geom → Option (List Poly)
   | .multiPolygon ps => some ps
   | _ => none
 
+/-- some vertex of one member polygon lies in the *interior* of an edge of another member -/
+def vertexOnForeignEdge (ps : List Poly) : Bool :=
+  ps.zipIdx.any (fun (p, i) => ps.zipIdx.any (fun (q, j) =>
+    i != j && (p.rings.flatten).any (fun v =>
+      (q.rings.flatMap segs).any (fun (a, b) => lineCoord a b v && v != a && v != b))))
+
 def shapeTags (g : Geom) : String :=
   match polysOf g with
   | none => ""
@@ -71,6 +77,7 @@ def shapeTags (g : Geom) : String :=
     (if rings.any hasCollinearVertex then " collinear" else "") ++
     (if rings.any hasVertical then " vertical" else "") ++
     (if ps.any ringsTouch then " rings-touch" else "") ++
+    (if vertexOnForeignEdge ps then " vertex-on-foreign-edge" else "") ++
     (if maxAbs cs > 512 then " big" else " grid")
 
 def clauseStr (c : String) : String := if c == "" then "PASS" else "FAIL:" ++ c
